@@ -33,6 +33,8 @@ class Lower:
         self.dispatchers = {}       # cname -> (method decl, static rec)
         self.complete_dtors = {}    # rec id -> cname (queued)
         self.deleters = {}
+        self.fn_erasure = {}        # std::function signature -> [(closure record, call operator, C name)]
+        self.fn_dispatch_names = {}
         self.tags = {}              # cname -> int
         self.static_asserts = []
         self.lambda_caps = {}       # closure record id -> {captured decl id: (field name, by_reference)}
@@ -113,6 +115,22 @@ class Lower:
         if m or n in ('std::true_type', 'std::false_type', 'true_type', 'false_type'): return ('model', 'struct vp_empty')
         m = re.match(r'^(?:std::|detail::)*(index_sequence|integer_sequence|make_index_sequence)<(.*)>$', n)
         if m: return ('model', 'struct vp_empty')
+        if self.cfg.get('erase_functions'):
+            # std::function as a tagged closure object, std::vector as a fixed-capacity array (trusted models, DESIGN 2.1)
+            m = re.match(r'^(?:std::)?function<(.*)>$', n)
+            if m: return ('fnobj', m.group(1))
+            m = re.match(r'^(?:std::)?vector<(.*)>::(iterator|const_iterator|pointer|const_pointer|reference|const_reference|value_type)$', n)
+            if m:
+                a = split_top(m.group(1))
+                return ('alias', a[0]) if m.group(2) in ('value_type', 'reference', 'const_reference') else ('ptr', a[0])
+            m = re.match(r'^(?:std::)?vector<(.*)>$', n)
+            if m: return ('vec', split_top(m.group(1))[0])
+            m = re.match(r'^(?:__gnu_cxx::)?__normal_iterator<(.*)>(::reference)?$', n)
+            if m:
+                a = split_top(m.group(1))
+                if a[0].endswith('*'): return ('alias', a[0][:-1]) if m.group(2) else ('ptr', a[0][:-1])
+            m = re.match(r'^__gnu_cxx::__alloc_traits<.*,(.*)>::value_type$', n)
+            if m: return ('alias', m.group(1))
         for pat, c in STD_MODELS:
             if re.match(pat, n):
                 self.stats['std_models'].add(c)
@@ -200,6 +218,15 @@ class Lower:
                 self.aux_structs[nm] = ('pair', a, b)
                 self.rec_defs.append('struct %s { %s first; %s second; };' % (nm, self.ctype(a), self.ctype(b)))
             return 'struct ' + nm
+        if k == 'fnobj':
+            return 'struct vp_fnobj'
+        if k == 'vec':
+            et = self.ctype(t[1])
+            nm = 'vp_vec_' + sanitize(et.replace('struct ', ''))
+            if nm not in self.aux_structs:
+                self.aux_structs[nm] = ('vec', t[1])
+                self.rec_defs.append('struct %s { %s a[VP_VEC_CAP]; unsigned long n; };' % (nm, et))
+            return 'struct ' + nm
         if k == 'initlist':
             return 'struct vp_initlist'
         raise Unsupported('ctype of %s' % (t,))
@@ -279,7 +306,7 @@ class Lower:
     def trivially_destructible(self, t):
         k = t[0]
         if k == 'alias': return self.trivially_destructible(self.tparse(t[1]))
-        if k in ('builtin', 'ptr', 'ref', 'refw', 'initlist'): return True
+        if k in ('builtin', 'ptr', 'ref', 'refw', 'initlist', 'fnobj', 'vec'): return True   # fnobj/vec: the model owns no storage that a destructor would have to release
         if k == 'model': return t[1] not in ('struct vp_lock', 'struct vp_shared_ptr', 'struct vp_function')
         if k == 'uptr': return False
         if k == 'rec':
@@ -510,6 +537,38 @@ class Lower:
         rc = self.need_rec(self.root_of(srec))
         return self.tag_of('USER_' + rc)
 
+    def fn_erase(self, sig, closure_rec, op):
+        """register closure type `closure_rec` (call operator `op`) as a possible content of std::function<sig>; returns its tag"""
+        ent = self.fn_erasure.setdefault(sig, [])
+        for k, (r, o, f) in enumerate(ent):
+            if r['id'] == closure_rec['id']: return k + 1
+        ent.append((closure_rec, op, self.need_fn(op['id'])))
+        return len(ent)
+
+    def fn_dispatcher(self, sig):
+        nm = 'vp_fncall_' + sanitize(sig)
+        if nm not in self.fn_dispatch_names:
+            self.fn_dispatch_names[nm] = sig
+            self.fn_erasure.setdefault(sig, [])
+            self.protos.append(self.fn_dispatch_sig(sig, nm) + ';')
+        return nm
+
+    def fn_dispatch_sig(self, sig, nm):
+        ps = params_of(sig)
+        return '%s %s(%s)' % (self.ctype(ret_of(sig)), nm, ', '.join(['struct vp_fnobj * self'] + ['%s a%d' % (self.ctype(p), i) for i, p in enumerate(ps)]))
+
+    def fn_dispatch_bodies(self):
+        out = []
+        for nm, sig in self.fn_dispatch_names.items():
+            ps = params_of(sig); rett = self.ctype(ret_of(sig)); ret = '' if rett == 'void' else 'return '
+            cases = []
+            for k, (r, o, f) in enumerate(self.fn_erasure.get(sig, [])):
+                cases.append('    case %d: %s%s(%s);%s' % (k + 1, ret, f, ', '.join(['(struct %s *)self->obj' % self.need_rec(r)] + ['a%d' % i for i in range(len(ps))]), '' if ret else ' return;'))
+            body = '%s\n{\n%s  switch (self->tag) {\n%s\n    default: vp_bad_function_call(); %s\n  }\n}\n' % (
+                self.fn_dispatch_sig(sig, nm), ('  %s _vp_d;\n' % rett) if ret else '', '\n'.join(cases), 'return _vp_d;' if ret else 'return;')
+            out.append(body)
+        return out
+
     def need_dtor_dispatch(self, srec):
         sc = self.need_rec(srec)
         nm = 'vd_dtor_' + sc
@@ -586,5 +645,5 @@ class Lower:
             ms = [k for k in self.stubs if re.search(pat, k)]
             if len(ms) != 1: raise Unsupported('stub alias %s (%s) matched %d stubs' % (a, pat, len(ms)))
             hdr.append('#define %s %s' % (a, ms[0]))
-        src = list(self.bodies) + [d for d in self.dispatchers.values() if d] + [d for d in self.deleters.values() if d]
+        src = list(self.bodies) + self.fn_dispatch_bodies() + [d for d in self.dispatchers.values() if d] + [d for d in self.deleters.values() if d]
         return '\n'.join(hdr) + '\n', '\n'.join(src) + '\n'
